@@ -858,23 +858,22 @@ theorem stackInv_push (hs : s.raising = true) {st : List (Kind × Nat)} {k : Kin
       cases pk <;> cases k <;> simp at h hp ⊢ <;> omega
 
 theorem runTrace_le (hs : s.raising = true) : ∀ (evs : List Event) (st : List (Kind × Nat))
-    (mx m : Nat), stackInv N st → mx ≤ N + 2 → runTrace s N evs st mx = .ok m → m ≤ N + 2 := by
+    (mx m o : Nat), stackInv N st → mx ≤ N + 2 → runTrace s N evs st mx = .ok (m, o) →
+    m ≤ N + 2 := by
   intro evs
   induction evs with
   | nil =>
-    intro st mx m _ hmx h
-    cases st with
-    | nil => simp [runTrace] at h; omega
-    | cons a r => simp [runTrace] at h
+    intro st mx m o _ hmx h
+    simp [runTrace] at h; omega
   | cons e evs ih =>
-    intro st mx m hst hmx h
+    intro st mx m o hst hmx h
     cases e with
     | exit =>
       cases st with
       | nil => simp [runTrace] at h
       | cons a rest =>
         simp only [runTrace] at h
-        exact ih rest mx m hst.2 hmx h
+        exact ih rest mx m o hst.2 hmx h
     | enter k L =>
       simp only [runTrace] at h
       split at h
@@ -883,13 +882,29 @@ theorem runTrace_le (hs : s.raising = true) : ∀ (evs : List Event) (st : List 
         have hinv := stackInv_push hs hst hc
         have := stackInv_length hinv
         simp only [List.length_cons] at this
-        exact ih _ _ m hinv (by omega) h
+        exact ih _ _ m o hinv (by omega) h
 
 /-- **C02 (trace checker, soundness).** A gauge trace accepted by `checkTrace` never has more than
 `N + 2` simultaneously active frames — the driver's `bad:bound` answer is unreachable. -/
 theorem trace_bounded (s : Sites) (hs : s.raising = true) (N : Nat) (evs : List Event) (m : Nat)
-    (h : checkTrace s N evs = .ok m) : m ≤ N + 2 :=
-  runTrace_le hs evs [] 0 m trivial (by omega) h
+    (h : checkTrace s N evs = .ok m) : m ≤ N + 2 := by
+  unfold checkTrace at h
+  split at h
+  · rename_i m' hr
+    cases h
+    exact runTrace_le hs evs [] 0 m 0 trivial (by omega) hr
+  · cases h
+  · cases h
+
+/-- the same for a truncated trace -/
+theorem trace_prefix_bounded (s : Sites) (hs : s.raising = true) (N : Nat) (evs : List Event)
+    (m : Nat) (h : checkTracePrefix s N evs = .ok m) : m ≤ N + 2 := by
+  unfold checkTracePrefix at h
+  split at h
+  · rename_i m' o hr
+    cases h
+    exact runTrace_le hs evs [] 0 m o trivial (by omega) hr
+  · cases h
 
 /-! ## Frame traces: the trace of an admissible run is accepted -/
 
@@ -1122,7 +1137,8 @@ theorem trace_of_run (s : Sites) (N : Nat) (d : Doc) (h : Doc.ok s N d = true) :
   have := Blk.run_inlTraceL d 0 (max (max 0 (0 + 1)) (0 + 1 + Blk.nestedL d)) [] h
   simp only [List.append_nil] at this
   rw [this]
-  simp only [runTrace, Doc.frames, Doc.blockFrames, Doc.inlineFrames, Blk.inlFramesL]
+  simp only [runTrace, List.length_nil, Doc.frames, Doc.blockFrames, Doc.inlineFrames,
+    Blk.inlFramesL]
   congr 1; omega
 
 
@@ -1133,6 +1149,9 @@ example : checkTrace currentSites 5 (Doc.trace currentSites exRun) = .ok 4 := by
 example : checkTrace currentSites 5
     [.enter .block 0, .enter .block 0, .enter .block 0, .exit, .exit, .exit] = .error .level := by
   decide
+/-- a truncated trace: rejected as complete, accepted as prefix -/
+example : checkTrace currentSites 5 [.enter .block 0, .enter .block 1, .exit] = .error .unbalanced ∧
+    checkTracePrefix currentSites 5 [.enter .block 0, .enter .block 1, .exit] = .ok 2 := by decide
 /-- a nested call from a frame at the limit is rejected -/
 example : checkTrace currentSites 1
     [.enter .block 0, .enter .block 1, .enter .block 2, .exit, .exit, .exit] = .error .guard := by
